@@ -200,7 +200,15 @@ def repairTfcP (t : Toggles) (p : Program) : Nat → Key → MP Unit
     let n ← match (← getNode k) with
       | some n => pure n
       | none => throwP (.panic "repair_transitive_firewall_callees: node_info unwrap")
-    for f in (← permuteChoice t n.tfc) do
+    let mut fws : List Key := []
+    for f in n.tfc do
+      if !t.f36 then fws := fws ++ [f]
+      else
+        let selfMarked := match (← getNode f) with
+          | some fn => fn.tfc.contains f
+          | none => false
+        if f != k && (← storedKind f) == .firewall && !selfMarked then fws := fws ++ [f]
+    for f in (← permuteChoice t fws) do
       let _ ← queryForP t p fuel f .repairFirewall
 
 /-- `invoke_backward_projections` + `done_backward_projection` -/
@@ -267,7 +275,7 @@ def repairQueryP (t : Toggles) (p : Program) : Nat → Key → Caller → MP Uni
         | .query _ _ ped => ped
         | .bpp => true
         | _ => false
-      let mut recompute := t.f32 && n.sccRun
+      let mut recompute := (t.f32 && n.sccRun) || (t.f34 && (n.fwd.flatMap Dep.keys).any fun c => (lookup c n.obs).isNone)
       let mut needTfc := false
       let mut cleaned : List Key := []
       for dep in n.fwd do
@@ -385,20 +393,23 @@ def executeQueryP (t : Toggles) (p : Program) : Nat → Key → Bool → Caller 
     let needBP ← match old with
       | some o =>
         if (o.kind == .firewall || o.kind == .projection) && isRecompute then
-          if o.value != value || (t.f1r && o.kind == .projection && o.tfc != comp.tfc) then
+          if o.value != value || (t.f1r && o.kind == .projection && o.tfc != (if t.f36 && comp.inScc then insertSorted k comp.tfc else comp.tfc)) then
             dirtyPropagate (fuel + (← getS).back.length + 2) [k]
             pure true
           else pure false
-        else pure false
+        else
+          if t.f35 && isRecompute && o.value != value && (o.tfc.contains k || o.sccRun || comp.inScc) then
+            dirtyPropagate (fuel + (← getS).back.length + 2) [k]
+          pure false
       | none => pure false
     match old with
     | some o => removeBackEdges k o.fwd isRecompute
     | none => pure ()
     let observations : List (Key × Obs) :=
-      if t.f3 && comp.inScc then [] else comp.callees.filterMap fun (c, o) => o.map fun o => (c, o)
+      if (t.f3 || t.f34) && comp.inScc then [] else comp.callees.filterMap fun (c, o) => o.map fun o => (c, o)
     setNode k {
       kind := comp.kind, lastVerified := now, value := value, fwd := comp.order,
-      obs := observations, tfc := comp.tfc,
+      obs := observations, tfc := (if t.f36 && comp.inScc then insertSorted k comp.tfc else comp.tfc),
       pendingBP := if needBP then some now else (old.bind (·.pendingBP)),
       sccRun := comp.inScc }
     addBackEdges k comp.order
